@@ -17,14 +17,64 @@ ASSUMPTIONS = ["fparser1's per-statement regex parsers are leaves: their text is
 TIE_MODULES = ["FparserModel.One", "FparserModel.Norm"]
 
 
+ANALYZE_SAMPLES = [
+    "module m\n  implicit none\n  integer, public :: counter\n  real, private, save :: w(10)\n  integer, parameter, public :: n = 3\ncontains\n  subroutine s(a)\n    real, intent(in) :: a\n    counter = counter + 1\n  end subroutine s\nend module m\n",
+    "module m2\n  private\n  public :: f\n  real, public, dimension(3) :: v\ncontains\n  function f(x)\n    real :: f, x\n    f = x\n  end function f\nend module m2\n",
+    "subroutine t(a, b)\n  integer, intent(inout) :: a\n  real, optional, intent(in) :: b\n  common /blk/ c, d\n  data c /1.0/\n  a = 1\nend subroutine t\n",
+]
+
+
+def analyze_case(src, isfree, res, case):
+    """analyze in {False, True}: the regenerated text must be the same and must round-trip"""
+    from fparser import api
+    outs = {}
+    for an in (False, True):
+        try:
+            t = api.parse(src, isfree=isfree, isstrict=False, analyze=an, ignore_comments=True)
+            outs[an] = CN.body1(str(t), isfree)
+        except SystemExit:
+            outs[an] = "exit"
+        except Exception as e:  # noqa: BLE001
+            outs[an] = "%s" % type(e).__name__
+    if not isinstance(outs[True], list):
+        # not accepted under analyze=True (fparser1's analyser raises on some constructs, e.g. a
+        # derived-type definition inside a main program): outside the property's premise
+        res["counts"]["analyze-not-accepted:" + str(outs[True])] = res["counts"].get("analyze-not-accepted:" + str(outs[True]), 0) + 1
+        return
+    if isinstance(outs[False], list) and outs[True] != outs[False]:
+        d = next(((a, b) for a, b in zip(outs[False], outs[True]) if a != b), (len(outs[False]), len(outs[True])))
+        sig = "analyze-changes-text:" + util.stmt_kind(str(d[0]))
+        known = findings.classify("C19", src, {"analyze": True, "diff": d})
+        res["findings"].append({"signature": known or sig, "what": "analyze=True prints %r where analyze=False prints %r" % (d[1], d[0]),
+                                "replay": {"case": case, "source": src, "isfree": isfree}})
+    # and the analyze=True output must round-trip as well
+    from fparser import api as _api
+    try:
+        t1 = _api.parse(src, isfree=isfree, isstrict=False, analyze=True, ignore_comments=True)
+        s1 = str(t1)
+        t2 = _api.parse("\n".join(s1.split("\n")[1:]) + "\n", isfree=isfree, isstrict=False, analyze=True, ignore_comments=True)
+        if CN.body1(str(t2), isfree) != CN.body1(s1, isfree):
+            res["findings"].append({"signature": "analyze-roundtrip-unstable", "what": "analyze=True output does not round-trip",
+                                    "replay": {"case": case, "source": src, "isfree": isfree}})
+    except SystemExit:
+        pass
+    except Exception:  # noqa: BLE001
+        pass
+
+
 def run_case(case):
     rng = random.Random(case["seed"])
     m = get_model()
     res = {"key": ["c19", case["seed"]], "counts": {}, "findings": [], "nontrivial": True}
     n = 0
     nkeys = 0
+    if case.get("analyze"):
+        for src in ANALYZE_SAMPLES:
+            analyze_case(src, True, res, case)
     for src, isfree in CN.gen_sources(rng, case["n"]):
         n += 1
+        if n % 4 == 0:
+            analyze_case(src, isfree, res, case)
         r = CN.check_nest1(m, src, isfree)
         res["counts"]["real:" + r["real"][0]] = res["counts"].get("real:" + r["real"][0], 0) + 1
         res["counts"]["form:" + ("free" if isfree else "fixed")] = res["counts"].get("form:" + ("free" if isfree else "fixed"), 0) + 1
@@ -36,6 +86,7 @@ def run_case(case):
             continue
         if r["real"][0] == "ok" and r["real"][1].count("(") >= 3:
             nkeys += 1
+            res.setdefault("keys", []).append("%d:%d" % (case["seed"], n))
         if not r["agree"]:
             res["findings"].append({"signature": "correspondence:Fp.One", "no_input": True,
                                     "what": "nesting: real %r vs model %r" % (r["real"], r["model"]), "replay": rp})
@@ -73,7 +124,7 @@ def run_case(case):
 
 def cases(tier, seed):
     nb = util.tier_n(tier, 16, 160)
-    return [{"seed": s, "n": 40, "_timeout": 900} for s in util.seeds(seed, nb, 19)]
+    return [{"seed": s, "n": 40, "_timeout": 900, "analyze": i == 0} for i, s in enumerate(util.seeds(seed, nb, 19))]
 
 
 def run(tier, rep, st):
